@@ -106,3 +106,87 @@ func init() {
 	verifRegister("VerifC09_SetLaws", VerifC09_SetLaws)
 	verifRegister("VerifC09_Pairs", VerifC09_Pairs)
 }
+
+// ---- text level (byte-symbolic fields)
+
+func c09plainByte(c byte) bool {
+	// printable ASCII, not a space, colon or comma (the restriction stated in the property
+	// for the print/parse round trip)
+	return c > ' ' && c < 0x7f && c != ':' && c != ','
+}
+
+func c09field(name string, menu []string, k int) string {
+	j := verifChoose(name+".kind", len(menu)+1)
+	if j < len(menu) {
+		return menu[j]
+	}
+	n := 1 + verifChoose(name+".len", k)
+	s := verifStringN(name, n)
+	for i := 0; i < len(s); i++ {
+		verifAssume(c09plainByte(s[i]))
+	}
+	return s
+}
+
+func c09textTriple(name string, k int) ResourceScope {
+	return ResourceScope{
+		ResourceType: c09field(name+".type", []string{"repository", "registry"}, k),
+		Resource:     c09field(name+".res", []string{"catalog"}, k),
+		Action:       c09field(name+".act", []string{"pull", "push", "*"}, k),
+	}
+}
+
+// VerifC09_PrintParse: printing a scope and parsing the text yields an equal scope.
+func VerifC09_PrintParse() {
+	k := verifParam("k", 1)
+	n := 1 + verifChoose("n", verifParam("n", 2))
+	var l []ResourceScope
+	for i := 0; i < n; i++ {
+		l = append(l, c09textTriple("t", k))
+	}
+	s := NewScope(l...)
+	text := s.String()
+	back := ParseScope(text)
+	verifAssert(back.Equal(s), "parse-of-print-is-equal")
+	verifAssert(back.String() == text, "print-is-stable")
+	verifCover("end")
+}
+
+// VerifC09_UnionText: a union that adds nothing returns the receiver with its original text.
+func VerifC09_UnionText() {
+	k := verifParam("k", 1)
+	a := c09textTriple("a", k)
+	b := c09textTriple("b", k)
+	// an arbitrary (possibly non-canonical) text for {a, b}: either order, with a duplicate
+	render := func(t ResourceScope) string { return t.ResourceType + ":" + t.Resource + ":" + t.Action }
+	var text string
+	switch verifChoose("shape", 3) {
+	case 0:
+		text = render(a) + " " + render(b)
+	case 1:
+		text = render(b) + "  " + render(a)
+	default:
+		text = render(a) + " " + render(b) + " " + render(a)
+	}
+	s := ParseScope(text)
+	var t Scope
+	switch verifChoose("other", 4) {
+	case 0:
+		t = Scope{}
+	case 1:
+		t = NewScope(a)
+	case 2:
+		t = NewScope(b, a)
+	default:
+		t = ParseScope(render(b))
+	}
+	u := s.Union(t)
+	verifAssert(u.String() == text, "union-adding-nothing-keeps-text")
+	verifAssert(u.Equal(s), "union-adding-nothing-is-equal")
+	verifCover("end")
+}
+
+func init() {
+	verifRegister("VerifC09_PrintParse", VerifC09_PrintParse)
+	verifRegister("VerifC09_UnionText", VerifC09_UnionText)
+}
